@@ -611,6 +611,8 @@ impl<'c, Q: Queue> Interp<'c, Q> {
             self.mark_disturb();
             if late {
                 self.stats.hit("iter_mut_late_write_changed");
+                // known finding F7: judged at this step; afterwards the order is unspecified
+                self.pending_order_off = true;
             }
         }
         match end {
@@ -639,7 +641,8 @@ impl<'c, Q: Queue> Interp<'c, Q> {
         let k = (k as usize) % (n + 2);
         let mut visited: Vec<(u32, u32, i64, i64)> = Vec::new();
         self.q.iter_mut_each(how, k, &mut |key: &mut Key, p: &mut Prio| {
-            tick(FaultKind::Callback);
+            // no fault site here: a panic while the iter_mut guard is alive makes its Drop rebuild the
+            // heap during unwinding, and a second panic there is a (safe) abort, not C10's business
             let old = p.v;
             if bit(rwmask, key.id) {
                 p.v = r.apply(key.id, old);
